@@ -339,6 +339,50 @@ func clientSecrets(prefix string, c *config.Config) []secretRef {
 	return out
 }
 
+// injectRejectedReload is the file path of a sidecar started with a configuration file: the file is
+// accepted (ReloadFromFile), then edited into something strict parsing rejects and reloaded again, which must
+// leave the accepted configuration current; a regeneration after that (a new assignment) must produce the very
+// file the accepted configuration produced without the rejected reload in between.
+func injectRejectedReload(c *ICase, tmap map[string][]*target.Target, work string, i int, want []byte) string {
+	file := filepath.Join(work, fmt.Sprintf("inj-src-%d-%d.yml", os.Getpid(), i))
+	out := filepath.Join(work, fmt.Sprintf("inj-rej-%d-%d.yml", os.Getpid(), i))
+	defer os.Remove(file)
+	defer os.Remove(out)
+	if os.WriteFile(file, []byte(c.Config), 0644) != nil {
+		return "skipped"
+	}
+	cm := prom.NewConfigManager()
+	injr := sidecar.NewInjector(out, sidecar.InjectConfigOptions{ProxyURL: c.Proxy, PrometheusURL: "http://127.0.0.1:9090", ShardMonitorEnable: c.SelfMonitor},
+		prometheus.NewRegistry(), quietLog())
+	cm.AddReloadCallbacks(injr.ApplyConfig)
+	if cm.ReloadFromFile(file) != nil {
+		return "skipped"
+	}
+	hash := cm.ConfigInfo().ConfigHash
+	for k, bad := range []string{
+		strings.Replace(strings.Replace(c.Config, "job_name: ", "job_name: z", -1), "scrape_configs:", "scrape_confixs:", 1),
+		"scrape_configs:\n- job_name: [\n",
+	} {
+		if bad == c.Config || os.WriteFile(file, []byte(bad), 0644) != nil {
+			return "skipped"
+		}
+		if cm.ReloadFromFile(file) == nil {
+			return "skipped"
+		}
+		if cm.ConfigInfo().ConfigHash != hash {
+			return fmt.Sprintf("rejected reload %d changed the current configuration hash", k)
+		}
+		if err := injr.UpdateTargets(tmap); err != nil {
+			return fmt.Sprintf("after rejected reload %d of the configuration file, regenerating from the still-current configuration fails: %v", k, err)
+		}
+		got, _ := os.ReadFile(out)
+		if string(got) != string(want) {
+			return fmt.Sprintf("after rejected reload %d of the configuration file, the regenerated file differs from the one the accepted configuration gives (%d vs %d bytes)", k, len(got), len(want))
+		}
+	}
+	return ""
+}
+
 func runInject(a Args) *Result {
 	res := newResult("inject", a.seed, a.tier)
 	res.Rule = "random configurations (1-3 jobs with scheme/path/intervals/params/honor flags/limits, basic-auth | bearer | authorization | oauth2, TLS, static | file | dns discovery, relabeling, metric relabeling; alerting, remote write/read with secrets incl. values needing YAML quoting) x assignments (jobs without targets, targets of jobs that no longer exist, invalid-label names, params) through the real Injector; the file is loaded back and compared field-wise; non-trivial = at least one job has assigned targets; distinct by configuration + assignment"
@@ -436,6 +480,13 @@ func runInject(a Args) *Result {
 		text, _ := os.ReadFile(out)
 		gen, err := config.LoadFile(out, false, false, log.NewNopLogger())
 		_ = os.Remove(out)
+		if what := injectRejectedReload(c, tmap, work, i, text); what == "skipped" {
+			res.count("rejected_reload_skipped")
+		} else if what != "" {
+			viol("rejectedReload", "", what, c)
+		} else {
+			res.count("rejected_reload_then_regeneration")
+		}
 		if err != nil {
 			kind := "other"
 			for _, s := range clientSecrets("", orig) {
